@@ -37,6 +37,8 @@ def run(tier, seed, replay=None):
             p = g.lattice()
         elif c < 0.6:
             p = g.unsized_plan()
+        elif c < 0.7:
+            p = g.shifted_nested_plan()
         else:
             p = g.basic(nfam=rng.choice([1, 1, 2]), max_members=rng.choice([2, 3, 3]))
         if 2 <= len(p.blocks()) <= 6:
@@ -61,6 +63,22 @@ def run(tier, seed, replay=None):
         groupcorr.compare(rep, exe, [(p.invocation_text(), [p.block_text(bi) for bi in p.order()]) for p in sample])
     except C.BuildError as e:
         rep.broken.append(str(e)[:2000])
+    # instances of C05_flat_order_free_exec: when the executable hypotheses (no nested headers, flatWF) hold for one order, the
+    # MODEL must give every order the same kind of answer and the hypotheses must hold for every order
+    info = getattr(rep, "flat_info", {})
+    by_b = {}
+    for q, (bi, label) in zip(allv, owner):
+        fi_ = info.get(q.invocation_text())
+        if fi_ is not None:
+            by_b.setdefault(bi, []).append((label, fi_))
+    for bi, lst in by_b.items():
+        if any(nn and fw for _, (_, nn, fw) in lst):
+            rep.count("theorem-instances-checked:C05_flat_order_free_exec")
+            kinds = {k for _, (k, _, _) in lst}
+            if len(kinds) != 1 or not all(nn and fw for _, (_, nn, fw) in lst):
+                rep.broken.append("instance of C05_flat_order_free_exec false in the executable model: " + bases[bi].invocation_text()[:400])
+        else:
+            rep.count("theorem-not-applicable:nested-or-not-flatWF")
     evs = PC.evaluate(so, allv, need_shadow=False)
     by_base = {}
     for ev, (bi, label) in zip(evs, owner):
